@@ -103,6 +103,9 @@ pub fn run(rep: &Arc<Report>) {
     let m = SelModel { name: "select", menu: select_menu(rep.thorough(), true), checks: vec![Box::new(check_select)], sqlite_only: true };
     let st = explore(&m, depth, u64::MAX, rep);
     let dst = dml::run_c07(rep);
+    let (api_cmp, api_variants) = crate::props::apivar::run(rep, &[crate::lex::Dialect::Sqlite]);
+    rep.set("api_variant_comparisons", json!(api_cmp));
+    rep.set("api_variants", json!(api_variants));
     let live = LIVE_CLASSES.lock().unwrap().clone();
     rep.set("select_menu_size", json!(m.menu.len()));
     rep.set("states", json!(st.states + dst.states));
@@ -142,6 +145,9 @@ pub fn run(rep: &Arc<Report>) {
 }
 
 pub fn replay(case: &serde_json::Value) -> Option<String> {
+    if case["kind"].as_str() == Some("api-variant") {
+        return crate::props::apivar::replay(case);
+    }
     let ops: Vec<String> = case["ops"].as_array().map(|a| a.iter().filter_map(|x| x.as_str().map(String::from)).collect()).unwrap_or_default();
     match case["model"].as_str().unwrap_or("") {
         "select" => {
